@@ -243,6 +243,41 @@ Definition spec_ok (enabled : bool) (ob : objects) (wkeys : list string) (pkeys 
   ascii_list_eqb observed (spec_answers acceptable enabled ob wkeys pkeys).
 
 (* ------------------------------------------------------------------------------------------ *)
+(* Decidable forms of the hypotheses of the theorems (soundness: ProofsFinal), evaluated on every
+   generated history so that the evidence says how many explored cases meet them:
+   K1 -- after every event the stored signatures have pairwise distinct uids;
+   f21-free -- no (requirement with a tag and no bound, signature with that tag and a revision time) *)
+
+Definition sigs_distinctb (S : smap sigobj) : bool :=
+  forallb (fun a => forallb (fun b => String.eqb (fst a) (fst b) ||
+                                       negb (String.eqb (so_uid (snd a)) (so_uid (snd b)))) S) S.
+
+Fixpoint K1_fromb (ob : objects) (evs : list event) : bool :=
+  match evs with
+  | [] => true
+  | ev :: r => sigs_distinctb (ob_sig (apply_event ob ev)) && K1_fromb (apply_event ob ev) r
+  end.
+
+Definition K1_histb (evs : list event) : bool := K1_fromb objs0 evs.
+Definition is_none {A} (o : option A) : bool := match o with None => true | Some _ => false end.
+
+Definition f21_freeb (ob : objects) : bool :=
+  forallb (fun kp =>
+    match po_reqs (snd kp) with
+    | None => true
+    | Some l =>
+        forallb (fun r =>
+          match rq_tag r with
+          | None => true
+          | Some t =>
+              negb (is_none (tf_opt (rq_min r)) && is_none (tf_opt (rq_max r))) ||
+              forallb (fun ks => negb (String.eqb (so_tag (snd ks)) t) || is_none (tf_opt (so_rev (snd ks))))
+                      (ob_sig ob)
+          end) l
+    end) (ob_pol ob).
+
+
+(* ------------------------------------------------------------------------------------------ *)
 (* The state the implementation must be in, rebuilt from the objects alone (used to state the
    invariant as an equality of states)                                                           *)
 
